@@ -6,6 +6,7 @@ package nd
 
 import (
 	"encoding/json"
+	"sync"
 	"reflect"
 	"fmt"
 	"math/big"
@@ -221,6 +222,28 @@ func collect(v reflect.Value, out map[uintptr]bool, seen map[uintptr]bool) {
 			collect(v.Elem(), out, seen)
 		}
 	}
+}
+
+// Concurrently runs the given calls. Under the engine they run one after the other with write-footprint tracking
+// and the result is the number of writes that hit memory shared between the calls, package-level variables, or
+// pre-existing memory not reachable from the call's own captured arguments. Natively the calls run in parallel
+// goroutines, repeatedly, so that the race detector (go test -race) is the oracle; the result is then 0.
+func Concurrently(fns ...func()) int {
+	for rep := 0; rep < 20; rep++ {
+		var wg sync.WaitGroup
+		start := make(chan struct{})
+		for _, f := range fns {
+			wg.Add(1)
+			go func(f func()) {
+				defer wg.Done()
+				<-start
+				f()
+			}(f)
+		}
+		close(start)
+		wg.Wait()
+	}
+	return 0
 }
 
 // ExportPC hands the current path condition to the check's post-processing under the given name (engine only).
